@@ -203,8 +203,8 @@ class Check(PropertyCheck):
     rule = ("schedules over stream data / FIN / reset on bidi+uni, client- and server-initiated streams (<= 6 streams), "
             "connection close from either side, hook completions for any pending stream (keep/edit), datagrams; ~10% wild "
             "ids. distinct = distinct effective input sequence; non-trivial = at least one stream command produced.")
-    budget = {"quick": 8000, "thorough": 150000}
-    time_budget = {"quick": 30, "thorough": 540}
+    budget = {"quick": 6000, "thorough": 150000}
+    time_budget = {"quick": 20, "thorough": 540}
     fingerprints = ["mitmproxy.proxy.layers.quic._raw_layers:RawQuicLayer", "mitmproxy.proxy.layers.quic._raw_layers:QuicStreamLayer",
                     "mitmproxy.proxy.layers.quic._events:QuicStreamDataReceived", "mitmproxy.proxy.layers.quic._events:QuicStreamReset",
                     "mitmproxy.proxy.layers.quic._events:QuicConnectionClosed",
